@@ -120,6 +120,11 @@ var c08EncExprs = []string{
 	".n[0]", ".n[]", ".n.x", ".n | .[0]", ".n | length", ".n | keys", ".n | to_yaml", ".n | has(0)", ".n[1:]", ".n | .[\"k\"]", ".n | map(.)", ".n | .[]",
 	".r.c", ".r | keys", ".m.c", ".m | keys", ".m | to_entries", "[.r] | flatten", ".r | length", ".m | length", ".m[]", ".r[]", ".m | has(\"c\")",
 	".a | to_yaml | from_yaml", ".b | to_json | from_json", ".s | from_yaml", ".a | @yaml | @yamld", ".b | tojson | fromjson",
+	// merges (every flag) whose operands come from the document, also through its merge key and its aliases: the
+	// result is a new value, the operands - and the anchored map they merge or stand for - read as before
+	".m * {\"c\": 9}", ".m *? {\"c\": 9}", ".m *n {\"c\": 9}", ".m *+ {\"c\": [9]}", ".m *d {\"c\": 9}", ".m *?+ {\"i\": 9}", ".m *?d {\"j\": 9}", ".m *?c {\"c\": 9}",
+	"{\"c\": 9} *? .m", ".m *? {\"c\": {\"z\": 1}}", ".m *? {\"i\": [1]}", ".b *? {\"c\": 9}", ".b *n {\"zz\": 9}", ".m *n {\"zz\": {\"y\": 1}}", ".m * .b", ".b * .m", ".m *? .m",
+	".m + {\"c\": 9}", ".m | with_entries(.)", ".m | pick([\"c\"])", ".m | omit([\"d\"])", ".m | sort_keys(.)", ".m | to_entries | from_entries", ".m | map_values(. + 1)",
 }
 
 // expressions whose evaluation hands the scalars to the yaml.v3 emitter or to a regexp replacement run on concrete
